@@ -112,10 +112,18 @@ type Model struct {
 	Schema string  `json:"schema"`
 	Types  []*Type `json:"types"`
 	Conds  []*Cond `json:"conds,omitempty"`
+	// Intern: in the protobuf rendering every operator rewrite occurs once:
+	// equal union / intersection / exclusion subtrees anywhere in the model
+	// (other relations, other types) are THE SAME message - what code that
+	// assembles models from a library of rewrite constants produces.
+	Intern bool `json:"intern,omitempty"`
 }
 
+// internTable is non-nil while a model with Intern is rendered.
+var internTable map[string]*openfgav1.Userset
+
 func (m *Model) clone() *Model {
-	c := &Model{Schema: m.Schema, ID: m.ID}
+	c := &Model{Schema: m.Schema, ID: m.ID, Intern: m.Intern}
 	for _, t := range m.Types {
 		ct := &Type{Name: t.Name, Module: t.Module, File: t.File}
 		for _, r := range t.Relations {
@@ -158,6 +166,19 @@ func (t *Type) rel(n string) *Relation {
 // plan -> proto (harness's own builder; `This` is always a non-empty oneof)
 
 func exprToProto(e *Expr) *openfgav1.Userset {
+	if internTable != nil && e.isOp() {
+		k := exprKey(e)
+		if u, ok := internTable[k]; ok {
+			return u
+		}
+		u := exprToProto1(e)
+		internTable[k] = u
+		return u
+	}
+	return exprToProto1(e)
+}
+
+func exprToProto1(e *Expr) *openfgav1.Userset {
 	switch e.Kind {
 	case KThis:
 		return &openfgav1.Userset{Userset: &openfgav1.Userset_This{This: &openfgav1.DirectUserset{}}}
@@ -212,6 +233,10 @@ var paramTypeNames = map[string]openfgav1.ConditionParamTypeRef_TypeName{
 
 // toProto renders the plan. withSourceInfo controls modular attribution.
 func (m *Model) toProto() *openfgav1.AuthorizationModel {
+	if m.Intern {
+		internTable = map[string]*openfgav1.Userset{}
+		defer func() { internTable = nil }()
+	}
 	pm := &openfgav1.AuthorizationModel{SchemaVersion: m.Schema, Id: m.ID}
 	for _, t := range m.Types {
 		td := &openfgav1.TypeDefinition{Type: t.Name}
